@@ -5,7 +5,7 @@
 //! handler, and a scripted `RateLimiter`. `sleep(1ns)` is the quiescence barrier.
 //!
 //! stdin, one scenario per line:   <cfg> ; <op> ; <op> ; ...
-//!   cfg:  <router kp|q|sq|rr|cu> <queue d|p> <n workers> <disc none|new:L|old:L> <hash -|k:v,k:v> <rl -|bits> [dms:<secs>]
+//!   cfg:  <router kp|q|sq|rr|cu> <queue d|p> <n workers> <disc none|new:L|old:L> <hash -|k:v,k:v> <rl -|bits> [dms:<secs> | dmsk:<secs>]  (dead man's switch: detection only | killing stuck workers)
 //!   ops:  d <jid> <key> <ttl ms|-> <port 0|1>     dispatch a job
 //!         g <w> | f <w> | p <w>                   running job on worker w completes | returns Err | panics
 //!         k <w>                                   kill the newest live actor of worker w
@@ -251,8 +251,8 @@ impl FactoryLifecycleHooks<u64, Payload> for Hooks {}
 struct Stats;
 impl FactoryStatsLayer for Stats {}
 
-fn dms_cfg(secs: u64) -> DeadMansSwitchConfiguration {
-    DeadMansSwitchConfiguration::builder().detection_timeout(Duration::from_secs(secs)).kill_worker(false).build()
+fn dms_cfg((secs, kill): (u64, bool)) -> DeadMansSwitchConfiguration {
+    DeadMansSwitchConfiguration::builder().detection_timeout(Duration::from_secs(secs)).kill_worker(kill).build()
 }
 
 struct TableHash(HashMap<u64, u64>);
@@ -301,8 +301,8 @@ fn parse_disc(s: &str) -> DiscardSettings {
 struct Cfg {
     n: usize,
     disc: String,
-    /// dead man's switch at start: detection timeout in seconds (kill_worker = false: detection only)
-    dms: Option<u64>,
+    /// dead man's switch at start: detection timeout in seconds, and whether stuck workers are killed
+    dms: Option<(u64, bool)>,
 }
 
 /// Quiescence barrier: with the paused clock, time only moves when every task is blocked.
@@ -322,7 +322,13 @@ where
     let mut handler_gen = 0usize;
     let fdef = Factory::<u64, Payload, (), HWorker, R, Q>::default();
     let args = FactoryArguments::builder()
-        .worker_builder(Box::new(Builder(sh.clone())))
+        .worker_builder(if cfg.n % 2 == 0 {
+            // the closure-backed builder of the library
+            let shb = sh.clone();
+            Box::new(worker_builder(move |wid| Builder(shb.clone()).build(wid)))
+        } else {
+            Box::new(Builder(sh.clone()))
+        })
         .num_initial_workers(cfg.n)
         .router(router)
         .queue(queue)
@@ -377,7 +383,17 @@ where
                     job.accepted = Some(tx.into());
                     pending_ports.push((jid, rx));
                 }
-                if let Err(e) = factory.dispatch_job(job) {
+                // the three dispatch entry points of FactoryRef
+                let sent = if job.accepted.is_some() {
+                    factory.dispatch_job(job)
+                } else if ttl.is_none() {
+                    let Job { key, msg, .. } = job;
+                    factory.dispatch(key, msg)
+                } else {
+                    let Job { key, msg, options, .. } = job;
+                    factory.dispatch_with_options(key, msg, options)
+                };
+                if let Err(e) = sent {
                     // factory gone: the job comes back in the error
                     ev(&sh, format!("ESendErr {}", jid));
                     sh.lock().unwrap().settled.insert(jid);
@@ -513,8 +529,11 @@ where
                 // dms:<secs> | dms:off | ctl | hooks | hooksoff | stats | statsoff
                 let req = match w[1] {
                     "dms:off" => UpdateSettingsRequest::builder().dead_mans_switch(None).build(),
+                    x if x.starts_with("dmsk:") => UpdateSettingsRequest::builder()
+                        .dead_mans_switch(Some(dms_cfg((x[5..].parse().expect("dmsk secs"), true))))
+                        .build(),
                     x if x.starts_with("dms:") => UpdateSettingsRequest::builder()
-                        .dead_mans_switch(Some(dms_cfg(x[4..].parse().expect("dms secs"))))
+                        .dead_mans_switch(Some(dms_cfg((x[4..].parse().expect("dms secs"), false))))
                         .build(),
                     "ctl" => UpdateSettingsRequest::builder()
                         .capacity_controller(Some(Box::new(Ctl(sh.clone(), ctl_gate.clone())) as Box<dyn WorkerCapacityController>))
@@ -600,7 +619,11 @@ fn run_scenario(line: &str) -> String {
         .collect();
     let c = &parts[0];
     let ops: Vec<Vec<String>> = parts[1..].to_vec();
-    let dms = c.get(6).and_then(|t| t.strip_prefix("dms:")).map(|t| t.parse::<u64>().expect("dms"));
+    let dms = c.get(6).and_then(|t| {
+        t.strip_prefix("dmsk:")
+            .map(|x| (x.parse::<u64>().expect("dmsk"), true))
+            .or_else(|| t.strip_prefix("dms:").map(|x| (x.parse::<u64>().expect("dms"), false)))
+    });
     let cfg = Cfg { n: c[2].parse().expect("n"), disc: c[3].clone(), dms };
     let mut table = HashMap::new();
     if c[4] != "-" {
